@@ -6,6 +6,7 @@ import (
 	"fmt"
 	"io"
 	"strings"
+	stdSync "sync"
 
 	jschema "github.com/jsightapi/jsight-schema-go-library"
 	"github.com/jsightapi/jsight-schema-go-library/errors"
@@ -433,6 +434,13 @@ func (s *Schema) buildASTNode() jschema.ASTNode {
 	return an
 }
 
+// compileMu serialises the compilation of all schemas. Compiling a root schema
+// rewrites, in place, the nodes of the user types added to it (the "allOf" rule
+// adds the properties of the parent to the node and is removed), and the same
+// type objects may have been added to several root schemas which are compiled
+// by different goroutines. Compiled nodes are only read.
+var compileMu stdSync.Mutex
+
 func (s *Schema) compile() error {
 	return s.compileOnce.Do(func() (err error) {
 		defer func() {
@@ -441,6 +449,8 @@ func (s *Schema) compile() error {
 		if err := s.load(); err != nil {
 			return err
 		}
+		compileMu.Lock()
+		defer compileMu.Unlock()
 		loader.CompileAllOf(s.inner)
 		loader.AddUnnamedTypes(s.inner)
 		checker.CheckRootSchema(s.inner)
